@@ -331,7 +331,7 @@ func (i *slurpInputIter) Next() (any, bool) {
 	if i.err != nil {
 		return nil, false
 	}
-	var vs []any
+	vs := []any{}
 	var v any
 	var ok bool
 	for {
